@@ -48,7 +48,9 @@ RULE = ('type trees: all 16 leaves (12 atomic types, 4 decimals), every depth-1 
         'type string replaced, sub-value replaced by a scalar, falsy metadata, non-string name); rows: for every '
         'leaf and depth-1 tree (sampled depth-2/3 trees) as a column, a full Row plus one Row per nullable '
         'position holding a null exactly there, random rows with nulls, through createDataFrame with the schema '
-        'inferred and with the explicit schema; single-position damages of a valid row (null in a non-nullable '
+        'inferred (list input and sc.parallelize input) and with the explicit schema; late-typed rows (a position that '
+        'is None / [] / {} / [None] / {k: None} in some rows and populated in another) in every row order; '
+        'single-position damages of a valid row (null in a non-nullable '
         'position incl. map keys, a value of a wrong Python type, an out-of-range integer, wrong arity, missing '
         'field) through createDataFrame(schema) and the verifier directly (struct values as Row/tuple/dict); '
         'Rows through pickle (protocols 2 and highest), asDict() and asDict(True); pairs of partially erased '
